@@ -37,6 +37,7 @@ type c07ev struct {
 	op   string
 	now  time.Duration
 	exec bool          // ret of Cancel: was the task executing right after the call returned
+	body bool          // ret of Cancel: was the task's function running at that moment
 	at   time.Duration // Schedule: absolute scheduled time (offset of the virtual clock)
 }
 
@@ -97,6 +98,18 @@ func VerifC07(p C07Params) *vsched.Scenario {
 							s.add(c07ev{kind: "call", task: 1, op: "self-q"})
 							t.Queue()
 							s.add(c07ev{kind: "ret", task: 1, op: "self-q"})
+						}
+					case "requeue-wait":
+						// queues itself once and keeps running until it is cancelled (or 2 virtual minutes passed)
+						if !requeued {
+							requeued = true
+							s.add(c07ev{kind: "call", task: 1, op: "self-q"})
+							t.Queue()
+							s.add(c07ev{kind: "ret", task: 1, op: "self-q"})
+							select {
+							case <-time.After(2 * time.Minute):
+							case <-ctx.Done():
+							}
 						}
 					case "long":
 						select {
@@ -164,6 +177,7 @@ func VerifC07(p C07Params) *vsched.Scenario {
 					case "c":
 						t.Cancel()
 						r.exec = t.executing // read right after the call returned (atomic in the schedule)
+						r.body = s.running[ti] > 0
 					default:
 						panic("unknown op " + sym)
 					}
@@ -258,11 +272,19 @@ func c07judge(p C07Params, s *c07state, submitEnd int) {
 			case "ret":
 				if e.op == "c" && cancelRetSeq < 0 {
 					cancelRetSeq = e.seq
-					// (c) cancelled while not executing: never started afterwards
-					if !e.exec {
-						for _, b := range evs {
-							if b.kind == "begin" && b.seq > e.seq {
-								verifFail("cancelled-task-never-starts", "begin-after-cancel", "task %d was cancelled while it was not executing (Cancel returned at %s) and began afterwards at %s\nlog: %s", ti, e.now, b.now, desc())
+					// (c) once cancelled, a waiting task is never started: no run may begin after Cancel returned,
+					// except the one run that had already been dequeued (executing) but whose function had not begun yet
+					allowed := 0
+					if e.exec && !e.body {
+						allowed = 1
+					}
+					n := 0
+					for _, b := range evs {
+						if b.kind == "begin" && b.seq > e.seq {
+							n++
+							if n > allowed {
+								verifFail("cancelled-task-never-starts", fmt.Sprintf("begin-after-cancel/executing=%v", e.exec), "task %d was cancelled (Cancel returned at %s, executing=%v, function running=%v) and was started afterwards at %s\nlog: %s", ti, e.now, e.exec, e.body, b.now, desc())
+								break
 							}
 						}
 					}
